@@ -70,7 +70,28 @@ pub fn all_leaves() -> Vec<F> {
 }
 
 fn leaves() -> Vec<F> {
-    leaves_over(literals())
+    let mut out = leaves_over(literals());
+    // every scalar of the alphabet Σ that the filter grammar can spell, once (operator and path rotate)
+    let mut k = 0usize;
+    for v in crate::model::universe::scalars(crate::engine::Tier::Quick) {
+        let ok = match &v {
+            V::Num(x, _) => x.is_finite(),
+            V::Str(_) | V::Ref(..) | V::Uri(_) | V::Sym(_) | V::Date(..) | V::Time(..) | V::DateTime(_) | V::Bool(_) => true,
+            _ => false,
+        };
+        if ok {
+            out.push(F::Cmp(p(["a", "a->b", "siteRef"][k % 3]), OPS[k % OPS.len()], v));
+            k += 1;
+        }
+    }
+    // tag names that start with or equal a keyword, single letters, digits and '_' in second position
+    for name in ["notify", "order", "android", "trueish", "falsePositive", "t", "f", "n", "na", "inf", "nan", "a1", "a_b", "siteRef", "curVal", "nottingham", "oracle", "andOr"] {
+        out.push(F::Has(p(name)));
+        out.push(F::Missing(p(&format!("{name}->{name}"))));
+        out.push(F::Cmp(p(name), Op::Lt, V::num(-5.0)));
+        out.push(F::Cmp(p(&format!("a->{name}")), Op::Eq, V::Bool(true)));
+    }
+    out
 }
 
 fn leaves_over(lits: Vec<V>) -> Vec<F> {
